@@ -325,10 +325,10 @@ def c08(tier):
     rep = Report("C08", "fault_enumeration", tier)
     bins = build_harness(("release",))
     hv = bins["release"]
-    per = {"E": 600, "S": 500, "R": 200, "rnd": 300, "M": 200} if tier == "quick" else \
-          {"E": 20000, "S": 6000, "R": 400, "rnd": 4000, "M": 3000, "N": 500}
-    cases = halting_cases(rep, "C08", hv, tier, ["E", "S", "R", "rnd", "M", "N"], per,
-                          want=350 if tier == "quick" else 6000)
+    per = {"E": 600, "S": 400, "R": 200, "rnd": 250, "M": 150, "I": 120, "N": 30} if tier == "quick" else \
+          {"E": 20000, "S": 6000, "R": 400, "rnd": 4000, "M": 3000, "N": 500, "I": 2000}
+    cases = halting_cases(rep, "C08", hv, tier, ["E", "S", "R", "rnd", "M", "N", "I"], per,
+                          want=380 if tier == "quick" else 6000)
     cap = 12 if tier == "quick" else 64
     nplans = 0
 
